@@ -5,6 +5,7 @@ package rebase
 // C16: REBASE parsing recovers every enzyme record and decodes suppliers.
 //
 // verif:bound C16 listings with 0..1 prose lines before the supplier table, 1..3 supplier lines indented with 16 spaces (as in the distributed file) or tabs, 0..2 (quick) / 0..3 (thorough) records <1>..<8>; every field 0..2 symbolic bytes (printable ASCII without '<'; two length patterns per record: all two bytes / empty and short fields), isoschizomer lists of 0 or 2 names, 0 or 2 supplier letters per enzyme; enzyme names and supplier letters pairwise distinct
+// verif:bound C16 long-line clause: one record whose isoschizomer line has 65530 / 70000 characters
 // verif:bound C16 outside the claim: 300 records, 15 supplier letters, the JSON text layer of Export (only the field/tag contract, see C15), Read's file handling
 
 func c16Printable() string {
@@ -142,6 +143,28 @@ func Selftest_C16_Vectors() {
 		}
 		vOut(s)
 	}
+}
+
+// a listing with one very long line (a huge isoschizomer list) loses nothing
+func Harness_C16_LongLine() {
+	n := []int{65530, 70000}[vChoice(2)]
+	body := make([]byte, n)
+	for i := range body {
+		body[i] = "ABCDEFGHIJ,"[i%11]
+	}
+	iso := vBytes(2, c16NoComma()) + "," + string(body) + "," + vBytes(2, c16NoComma())
+	text := "REBASE codes for commercial sources of enzymes\n\n                B        Life Technologies (3/21)\n\n" +
+		"<1>Eaa\n<2>" + iso + "\n<3>CC\n<4>\n<5>org\n<6>src\n<7>B\n<8>ref\n\n<1>Ebb\n<2>\n<3>GG\n<4>\n<5>o\n<6>s\n<7>\n<8>r\n\n"
+	var m map[string]Enzyme
+	panicked := vPanics(func() { m = Parse([]byte(text)) })
+	vAssert(!panicked, "parse-does-not-panic")
+	if panicked {
+		return
+	}
+	vAssert(len(m) == 2, "one-entry-per-record")
+	e := m["Eaa"]
+	vAssert(len(e.Isoschizomers) >= 2 && vEqStr(e.Isoschizomers[0], iso[:2]) && vEqStr(e.Isoschizomers[len(e.Isoschizomers)-1], iso[len(iso)-2:]), "isoschizomers-split-at-commas")
+	vAssert(vEqStr(m["Ebb"].RecognitionSequence, "GG"), "recognition-sequence-verbatim")
 }
 
 // Export: the JSON export parses back to the same map (json by field/tag contract).
